@@ -168,6 +168,25 @@ CHECKS = {
              "'Same function as a direct lookup' composes with C05/C06 and is observed end to end, not proved.",
         technique="Coq proof over a model whose field tables are regenerated from the source (translator) + end-to-end and codec correspondence runs evaluated by vm_compute",
         design="4/C19"),
+    "C01": dict(
+        text="Coq theorems over every record history (any interleaving of FORK / EXIT / COMM / EXEC / SAMPLE / MMAP records, pid/tid reuse, unannounced threads): C01_conservation (the samples flushed "
+             "into the profile are, as a multiset of (thread entry, time), exactly the accepted samples: the per-process buffers, their retirement at EXIT / EXEC and the final flush lose and duplicate "
+             "nothing), C01_nothing_else (every output sample stems from a SAMPLE record of a non-idle thread at its time relative to the origin), C01_idle_ignored. Tied end to end: generated histories "
+             "-> perf.data -> `samply import --save-only` -> out.json; a model-independent specification of 'accepted' decides the property on (pid, tid, time) triples and the model is compared entry by entry.",
+        note="Trusted: Coq kernel; perf.data writer; linux-perf-data (parsing, per-round sorting); reading out.json back. Modelled: default options only (no --reuse-threads / --fold-recursive-prefix / "
+             "per-cpu threads / context switches). Which of several incarnations of a reused (pid, tid) receives a sample is fixed by the model and compared entry by entry in the correspondence run.",
+        technique="Coq proof (permutation invariant over buffer moves, induction over the record list) + end-to-end correspondence run with a specification-level oracle evaluated by vm_compute",
+        design="4/C01"),
+    "C17": dict(
+        text="Coq theorems for every reachable converter state (C17_reachable_wf: live threads/processes always point at profile entries carrying their ids; C17_entries_stable: entries never lose their "
+             "identity): C17_comm_names_thread / _entry (a COMM names the live thread and its entry), C17_comm_names_process / _entry, C17_fork_thread (a FORK opens a fresh entry starting at the FORK time "
+             "and named like the forking thread), C17_exit_thread (an EXIT ends the entry at the EXIT time and retires the thread), C17_exit_main_ends_all (root of finding F-C17). Tied end to end: "
+             "grammar-respecting histories -> perf.data -> samply import -> out.json, compared entry by entry (names, start/end times, main flag) with the model, and four model-free clauses of the "
+             "property (last COMM shown, FORK/EXIT times as lifetimes, samples around an EXEC on different process entries, a forked thread shows the forking thread's name) decided on the output.",
+        note="Trusted: as C01. The theorems are per-record effects (composition over a history is by the model run, checked end to end); the property-level oracle is partial. Default options only. "
+             "F-C17 (threads with records after their main thread's EXIT) is an open known finding.",
+        technique="Coq proof (well-formedness invariant of the live table w.r.t. the profile entries; per-record effect theorems) + end-to-end correspondence run with a partial specification-level oracle",
+        design="4/C17"),
 }
 
 NOT_YET = "check not built yet in this development (planned: see DESIGN.md section 4); no claim is made"
